@@ -91,6 +91,11 @@ def ensure_landmarks():
     return path
 
 
+# models whose states are few but expensive to evaluate (BigInt text rendering): TLC's coverage
+# instrumentation exhausts the heap on them; they have a single next-state action, so the
+# vacuity check does not apply
+HEAVY_EVAL = {"MC_Text", "MC_Float"}
+
 STATS_RE = re.compile(r"(\d+) states generated, (\d+) distinct states found")
 
 
@@ -101,7 +106,8 @@ def run_mc(name, workers=4, timeout=3600, xmx="8g", cfg=None, env=None):
     if not os.path.exists(os.path.join(SPEC, module + ".tla")):
         module = name.rsplit("_", 1)[0]          # MC_Calendar_quick -> MC_Calendar.tla + MC_Calendar_quick.cfg
     rc, out = tlc(module + ".tla", cfg or (name + ".cfg"), os.path.join(WORK, "meta_%s_%d" % (name, os.getpid())),
-                  workers=workers, xmx=xmx, timeout=timeout, coverage=True, env=env)
+                  workers=(16 if name in HEAVY_EVAL else workers), xmx=xmx, timeout=timeout,
+                  coverage=(name not in HEAVY_EVAL), env=env)
     m = None
     for m in STATS_RE.finditer(out):
         pass
